@@ -93,30 +93,34 @@ func probeSuite(c Cfg) []Req {
 	// literals of the tree under test (dict.go), three or so per configuration, chosen by a
 	// hash of the configuration so that the suite stays a function of it
 	var dictOrigins []string
-	if n := len(dict.any); n > 0 {
+	if len(dict.any.all) > 0 {
 		k := int(fnv32(c.String()) & 0x7fffffff)
-		methods = dedup(append(methods, dict.any[k%n], dict.any[(k/7)%n]))
-		hdrLists = append(hdrLists, []string{strings.ToLower(dict.any[(k/3)%n])}, []string{dict.any[(k/11)%n]})
+		methods = dedup(append(methods, dict.any.at(k), dict.any.at(k/7)))
+		hdrLists = append(hdrLists, []string{strings.ToLower(dict.any.at(k / 3))}, []string{dict.any.at(k / 11)})
 		if len(allowedL) > 0 {
-			hdrLists = append(hdrLists, []string{allowedL[0] + "," + strings.ToLower(dict.any[(k/13)%n])})
+			hdrLists = append(hdrLists, []string{allowedL[0] + "," + strings.ToLower(dict.any.at(k/13))})
 		}
-		dictOrigins = append(dictOrigins, dict.any[(k/17)%n])
-		if h := dict.hosts; len(h) > 0 {
-			dictOrigins = append(dictOrigins, "https://"+h[k%len(h)])
-			if pt := dict.ports; len(pt) > 0 {
-				dictOrigins = append(dictOrigins, fmt.Sprintf("http://%s:%d", h[(k/5)%len(h)], pt[(k/3)%len(pt)]))
+		dictOrigins = append(dictOrigins, dict.any.at(k/17))
+		if len(dict.hosts.all) > 0 {
+			dictOrigins = append(dictOrigins, "https://"+dict.hosts.at(k), "https://sub."+dict.hosts.at(k/23))
+			if len(dict.ports.all) > 0 {
+				dictOrigins = append(dictOrigins, fmt.Sprintf("http://%s:%d", dict.hosts.at(k/5), dict.ports.at(k/3)))
+			}
+			if len(dict.schemes.novel) > 0 {
+				dictOrigins = append(dictOrigins, dict.schemes.at(2*(k/29))+"://"+dict.hosts.at(k/31))
 			}
 		}
-		if pt := dict.ports; len(pt) > 0 && len(match) > 0 {
+		if len(dict.ports.all) > 0 && len(match) > 0 {
 			// a matching origin moved to a mined port
+			pt := dict.ports.at(k / 19)
 			if i := strings.LastIndex(match[0], ":"); i > 5 && !strings.HasSuffix(match[0], "]") {
-				dictOrigins = append(dictOrigins, fmt.Sprintf("%s:%d", match[0][:i], pt[(k/19)%len(pt)]))
+				dictOrigins = append(dictOrigins, fmt.Sprintf("%s:%d", match[0][:i], pt))
 			} else {
-				dictOrigins = append(dictOrigins, fmt.Sprintf("%s:%d", match[0], pt[(k/19)%len(pt)]))
+				dictOrigins = append(dictOrigins, fmt.Sprintf("%s:%d", match[0], pt))
 			}
 		}
-		if o := dict.origins; len(o) > 0 {
-			dictOrigins = append(dictOrigins, o[k%len(o)])
+		if len(dict.origins.all) > 0 {
+			dictOrigins = append(dictOrigins, dict.origins.at(k))
 		}
 	}
 	origins = append(origins, dictOrigins...)
@@ -167,6 +171,11 @@ func probeSuite(c Cfg) []Req {
 			Req{Method: "GET", H: []HV{{hOrigin, []string{"https://evil.test", o}}}},
 			Req{Method: "OPTIONS", H: []HV{{hOrigin, []string{o}}, {hACRM, []string{"GET", "UNLISTED"}}}},
 		)
+	}
+	// every fifth request arrives in another shape of *http.Request (protocol version,
+	// TLS, path and query, OPTIONS *, body, cancelled context, ...: Req.Shape)
+	for i := 2; i < len(qs); i += 5 {
+		qs[i].Shape = (i/5)%(nShapes-1) + 1
 	}
 	return qs
 }
